@@ -167,7 +167,9 @@ def gen_leaf(rng, ns, nu, allow, in_split_state=False, in_split_input=False):
         elif k == 'angle':
             cnt = int(rng.integers(0, min(n, 3) + 1))
             feats = tuple(int(x) for x in rng.choice(n, size=cnt, replace=False))   # any order
-            s = ('angle', feats, bool(rng.random() < 0.25))
+            # fourth entry: the indices as handed to pykoop; some are written from the end (numpy semantics)
+            raw = tuple(int(f - n) if rng.random() < 0.3 else int(f) for f in feats)
+            s = ('angle', feats, bool(rng.random() < 0.25), raw)
         else:
             raise ValueError(k)
         d = dims_out(s, ns, nu)
@@ -282,7 +284,7 @@ def build(spec):
         return pykoop.SkLearnLiftingFn(intest.IntAffine(id=spec[1]))
     if k == 'angle':
         return pykoop.AnglePreprocessor(
-            angle_features=np.array(spec[1], dtype=int), unwrap_inverse=spec[2])
+            angle_features=np.array(spec[3] if len(spec) > 3 else spec[1], dtype=int), unwrap_inverse=spec[2])
     if k == 'split':
         return pykoop.SplitPipeline(
             lifting_functions_state=[(f's{next(_uid)}', build(s)) for s in spec[1]],
